@@ -1,16 +1,240 @@
-"""C16 - partition-family check (see props/partlib.py)."""
+"""C16 - reported sizes and counts. Partition-family check (props/partlib.py: one partition against Model/Part.v with the counters in the
+observation) plus an accounting audit over whole catalogues: histories over several streams / topics / partitions with sends, saves,
+roll-overs, purges, deletions of non-empty entities, refused requests, retention passes, restarts and server-side encryption; at every
+audit each reported figure is compared with what is stored (full polls, segment files) and with the sums over its children."""
+import base64, json
 from props import partlib
+from vlib import harness, util
 
 ASSUMPTIONS = [
     "single stream / topic / partition driven through the real TCP server with the SDK client; white-box dump via the SharedSystem handle",
     "clock pinned by the verif_hooks clock (deterministic timestamps); wait confirmation; message cache budget never reached (eviction only via explicit evict)",
     "u32 narrowing of positions/relative offsets is modelled; sizes stay far below 2^32 in the generated histories",
+    "the accounting audit over several streams / topics / partitions is a specification monitor on the implementation's answers (sums, full polls, file sizes), not a model comparison",
 ]
+KEY = base64.b64encode(bytes(range(7, 39))).decode()
+
+
+def gen_accounting(rng, tid):
+    cfg = {"req": rng.choice([1, 2, 1000]), "seg_size": rng.choice([700, 2000, 1_000_000]), "cache": rng.random() < 0.3, "delete_oldest": rng.random() < 0.5}
+    if rng.random() < 0.3:
+        cfg["enc_key"] = KEY
+    cat = {}          # stream id -> {topic id -> partitions}
+    ops = []
+    names = [0]
+    mid = [0]
+
+    def fresh():
+        names[0] += 1
+        return "n%d" % names[0]
+
+    def pick_topic():
+        c = [(s, t) for s in cat for t in cat[s]]
+        return rng.choice(c) if c else None
+
+    def audit():
+        ops.append({"op": "audit"})
+
+    for _ in range(rng.randrange(14, 36)):
+        k = rng.choices(["stream", "topic", "send", "send", "send", "send", "flush", "purge_topic", "purge_stream", "del_topic", "del_stream", "add_parts", "del_parts",
+                         "group", "retention", "restart", "audit", "refused"], [4, 6, 8, 8, 8, 8, 3, 3, 1, 2, 1, 3, 3, 2, 3, 3, 5, 4])[0]
+        if k == "stream" or not cat:
+            sid = rng.choice([i for i in range(1, 5) if i not in cat] or [9])
+            if sid not in cat:
+                ops.append({"op": "create_stream", "name": fresh(), "id": sid})
+                cat[sid] = {}
+            continue
+        if k == "topic" or not pick_topic():
+            sid = rng.choice(list(cat))
+            tid_ = rng.choice([i for i in range(1, 4) if i not in cat[sid]] or [0])
+            if tid_:
+                parts = rng.choice([1, 2, 3])
+                op = {"op": "create_topic", "stream": sid, "name": fresh(), "parts": parts, "id": tid_}
+                if rng.random() < 0.4:
+                    op["expiry"] = rng.choice([30_000, 200_000])
+                ops.append(op)
+                cat[sid][tid_] = parts
+            continue
+        sid, t = pick_topic()
+        if k == "send":
+            if cat[sid][t] == 0:
+                continue
+            msgs = []
+            for _ in range(rng.randrange(1, 5)):
+                mid[0] += 1
+                msgs.append({"id": mid[0], "len": rng.choice([1, 10, 100, 400]), "hdr": rng.choice([0, 0, 2])})
+            ops.append({"op": "send", "stream": sid, "topic": t, "part": {"kind": "pid", "id": rng.randrange(1, cat[sid][t] + 1)}, "msgs": msgs})
+        elif k == "flush" and cat[sid][t]:
+            ops.append({"op": "flush", "stream": sid, "topic": t, "partition": rng.randrange(1, cat[sid][t] + 1)})
+        elif k == "purge_topic":
+            ops.append({"op": "purge_topic", "stream": sid, "topic": t})
+        elif k == "purge_stream":
+            ops.append({"op": "purge_stream", "stream": sid})
+        elif k == "del_topic":
+            ops.append({"op": "delete_topic", "stream": sid, "topic": t})
+            del cat[sid][t]
+        elif k == "del_stream":
+            ops.append({"op": "delete_stream", "stream": sid})
+            del cat[sid]
+        elif k == "add_parts":
+            n = rng.choice([1, 2])
+            ops.append({"op": "create_partitions", "stream": sid, "topic": t, "n": n})
+            cat[sid][t] += n
+        elif k == "del_parts":
+            n = rng.choice([1, 1, 2])
+            ops.append({"op": "delete_partitions", "stream": sid, "topic": t, "n": n})
+            cat[sid][t] = max(0, cat[sid][t] - n)
+        elif k == "group":
+            if rng.random() < 0.7:
+                ops.append({"op": "create_group", "stream": sid, "topic": t, "name": fresh(), "id": rng.choice([1, 2])})
+            else:
+                ops.append({"op": "delete_group", "stream": sid, "topic": t, "group": rng.choice([1, 2])})
+        elif k == "retention":
+            ops.append({"op": "advance", "us": rng.choice([10_000, 50_000, 300_000])})
+            ops.append({"op": "maintain"})
+            audit()
+        elif k == "restart":
+            audit()
+            ops.append({"op": "restart"})
+            audit()
+        elif k == "audit":
+            audit()
+        elif k == "refused":
+            # requests that must be refused and must leave every figure as it was
+            r = rng.randrange(5)
+            audit()
+            if r == 0:
+                ops.append({"op": "create_topic", "stream": sid, "name": fresh(), "parts": rng.choice([1, 3]), "id": t})          # id taken, new name
+            elif r == 1:
+                ops.append({"op": "create_stream", "name": fresh(), "id": sid})                                                    # id taken, new name
+            elif r == 2:
+                ops.append({"op": "create_partitions", "stream": sid, "topic": 77, "n": 2})
+            elif r == 3:
+                ops.append({"op": "send", "stream": sid, "topic": t, "part": {"kind": "pid", "id": cat[sid][t] + 5}, "msgs": [{"id": 999_000 + len(ops), "len": 50}]})
+            else:
+                ops.append({"op": "create_group", "stream": sid, "topic": 88, "name": fresh()})
+            audit()
+    audit()
+    ops.append({"op": "restart"})
+    audit()
+    return {"id": tid, "cfg": cfg, "ops": ops}
+
+
+def audit_problems(a):
+    """every reported figure against what is stored and against the sums over its children"""
+    bad = []
+
+    def eq(what, x, y):
+        if x != y:
+            bad.append("%s: %s reported, %s %s" % (what, x, y, "stored / summed"))
+
+    st = a["stats"]
+    eq("statistics: streams", st["streams"], len(a["streams"]))
+    eq("statistics: topics", st["topics"], sum(len(s["topics"]) for s in a["streams"]))
+    eq("statistics: partitions", st["partitions"], sum(len(t["parts"]) for s in a["streams"] for t in s["topics"]))
+    eq("statistics: segments", st["segments"], sum(p["wb_segs"] for s in a["streams"] for t in s["topics"] for p in t["parts"]))
+    eq("statistics: consumer groups", st["groups"], sum(t["groups"] for s in a["streams"] for t in s["topics"]))
+    eq("statistics: messages", st["messages"], sum(s["msgs"] for s in a["streams"]))
+    eq("statistics: size", st["size"], sum(s["size"] for s in a["streams"]))
+    eq("stream list", a["listed"], [{"id": s["id"], "size": s["size"], "msgs": s["msgs"], "topics": s["topics_count"]} for s in a["streams"]])
+    for s in a["streams"]:
+        w = "stream %d" % s["id"]
+        eq(w + " topics count", s["topics_count"], len(s["topics"]))
+        eq(w + " messages", s["msgs"], sum(t["msgs"] for t in s["topics"]))
+        eq(w + " size", s["size"], sum(t["size"] for t in s["topics"]))
+        eq(w + " topic list", s["in_stream"], [{"id": t["id"], "size": t["size"], "msgs": t["msgs"], "parts": t["parts_count"]} for t in s["topics"]])
+        for t in s["topics"]:
+            w = "topic %d/%d" % (s["id"], t["id"])
+            eq(w + " partitions count", t["parts_count"], len(t["parts"]))
+            eq(w + " messages", t["msgs"], sum(p["msgs"] for p in t["parts"]))
+            eq(w + " size", t["size"], sum(p["size"] for p in t["parts"]))
+            for p in t["parts"]:
+                w = "partition %d/%d/%d" % (s["id"], t["id"], p["id"])
+                eq(w + " messages (full poll)", p["msgs"], p["polled"])
+                eq(w + " segments", p["segs"], p["wb_segs"])
+                if p["unsaved"] == 0:
+                    eq(w + " size (bytes in its segment files, nothing unsaved)", p["size"], p["log_bytes"])
+    return bad
+
+
+def run_accounting(out, tier, seed):
+    rng = util.Rng(seed * 16001 + 16)
+    n = 24 if tier == "quick" else 300
+    traces = [gen_accounting(rng, "C16-a%d" % i) for i in range(n)]
+    impl = harness.run_traces("srv", traces, shards=min(8, n))
+    audits, reported, restarts, refused, enc = 0, 0, 0, 0, 0
+    for t in traces:
+        ob = impl[t["id"]]
+        enc += 1 if "enc_key" in t["cfg"] else 0
+        if "crash" in ob or "init_err" in ob:
+            out.violation("acct-crash-%s" % t["id"], {"kind": "impl-crash", "mode": "srv", "trace": t, "detail": str(ob)[-1500:]})
+            continue
+        outs = ob["outs"]
+        prev = None     # (index, audit) when the previous op was an audit
+        for i, (op, o) in enumerate(zip(t["ops"], outs)):
+            problem = None
+            if op["op"] == "audit":
+                audits += 1
+                if o.get("r") != "ok":
+                    problem = ("the audit requests are not served", [str(o)[:300]])
+                else:
+                    bad = audit_problems(o)
+                    if bad:
+                        problem = ("a reported size or count differs from what is stored", bad[:6])
+                    elif i >= 2 and t["ops"][i - 1]["op"] == "restart" and t["ops"][i - 2]["op"] == "audit" and outs[i - 1].get("r") == "ok" and outs[i - 2].get("r") == "ok":
+                        restarts += 1
+                        before = json.loads(json.dumps(outs[i - 2]))
+                        after = json.loads(json.dumps(o))
+                        # a graceful stop saves the buffers: a partition with unsaved messages writes them as one batch, whose 24-byte
+                        # header is stored (and counted, as in Model/Part.v) from then on - at every level above it too
+                        for s in before["streams"]:
+                            for tp in s["topics"]:
+                                for p in tp["parts"]:
+                                    if p["unsaved"] > 0:
+                                        for holder in (p, tp, s, before["stats"]):
+                                            holder["size"] += 24
+                                        for e in before["listed"]:
+                                            if e["id"] == s["id"]:
+                                                e["size"] += 24
+                                        for e in s["in_stream"]:
+                                            if e["id"] == tp["id"]:
+                                                e["size"] += 24
+                        for a in (before, after):
+                            for s in a["streams"]:
+                                for tp in s["topics"]:
+                                    for p in tp["parts"]:
+                                        p.pop("unsaved"), p.pop("log_bytes")
+                        if before != after:
+                            diff = [k for k in ("stats", "listed") if before[k] != after[k]] or ["streams"]
+                            problem = ("a restart reports other figures than before it", ["differs in: %s" % diff, "before: %s" % json.dumps(before["stats"]), "after: %s" % json.dumps(after["stats"])])
+                    elif i >= 2 and t["ops"][i - 2]["op"] == "audit" and outs[i - 1].get("r") != "ok" and t["ops"][i - 1]["op"] not in ("restart", "maintain", "advance") and outs[i - 2].get("r") == "ok":
+                        refused += 1
+                        if outs[i - 2] != o:
+                            problem = ("a refused request changed reported figures", ["refused: %s -> %s" % (json.dumps(t["ops"][i - 1])[:200], json.dumps(outs[i - 1])[:120]),
+                                                                                    "before: %s" % json.dumps(outs[i - 2]["stats"]), "after: %s" % json.dumps(o["stats"])])
+            if problem:
+                if reported < 4:
+                    out.violation("acct-%s-%d" % (t["id"], i), {"kind": "spec-monitor", "mode": "srv", "trace": {"id": t["id"], "cfg": t["cfg"], "ops": t["ops"][:i + 1]},
+                                                                "what": problem[0], "details": problem[1]})
+                    reported += 1
+                break
+    return {"accounting_traces": n, "audits": audits, "restart_pairs_compared": restarts, "refused_requests_compared": refused, "traces_with_encryption": enc}
 
 
 def run(out, tier, seed, gate):
-    return partlib.check(out, tier, seed, "C16")
+    cov = partlib.check(out, tier, seed, "C16")
+    acc = run_accounting(out, tier, seed)
+    if isinstance(cov, dict):
+        cov.update(acc)
+    return cov
 
 
 def replay(payload):
+    if payload.get("trace", {}).get("id", "").startswith("C16-a"):
+        t = payload["trace"]
+        impl = harness.run_traces("srv", [t], shards=1)
+        o = impl[t["id"]]
+        last = o.get("outs", [{}])[-1]
+        print(json.dumps(audit_problems(last) if last.get("r") == "ok" and "stats" in last else last)[:5000])
+        return 0
     return partlib.replay(payload)
